@@ -1,14 +1,513 @@
 package main
 
+import (
+	"bufio"
+	"encoding/json"
+	"fmt"
+	"go/types"
+	"io"
+	"os"
+	"os/exec"
+	"path/filepath"
+	"sort"
+	"strconv"
+	"strings"
+	"time"
+
+	"golang.org/x/tools/go/ssa"
+)
+
 type replayResult struct {
 	Outcome string `json:"outcome"` // REPRODUCED | NOT-REPRODUCED | NO-MODEL | UNSUPPORTED
-	Model   string `json:"model,omitempty"`
 	Inputs  string `json:"inputs,omitempty"`
 	Test    string `json:"test_source,omitempty"`
 	Output  string `json:"test_output,omitempty"`
 	Reason  string `json:"reason,omitempty"`
+	Cmd     string `json:"command,omitempty"`
 }
 
+// modelSession is an interactive z3 process holding a satisfying model of one obligation.
+type modelSession struct {
+	cmd *exec.Cmd
+	in  io.WriteCloser
+	out *bufio.Reader
+}
+
+func startModelSession(smt string) (*modelSession, error) {
+	cmd := exec.Command("z3-new", "-in", "-T:30")
+	in, err := cmd.StdinPipe()
+	if err != nil {
+		return nil, err
+	}
+	outp, err := cmd.StdoutPipe()
+	if err != nil {
+		return nil, err
+	}
+	cmd.Stderr = cmd.Stdout
+	if err := cmd.Start(); err != nil {
+		return nil, err
+	}
+	ms := &modelSession{cmd: cmd, in: in, out: bufio.NewReader(outp)}
+	if _, err := io.WriteString(in, smt+"\n"); err != nil {
+		ms.close()
+		return nil, err
+	}
+	// read until the check-sat answer
+	deadline := time.Now().Add(40 * time.Second)
+	for time.Now().Before(deadline) {
+		line, err := ms.out.ReadString('\n')
+		if err != nil {
+			ms.close()
+			return nil, fmt.Errorf("solver ended: %v", err)
+		}
+		line = strings.TrimSpace(line)
+		switch line {
+		case "sat":
+			return ms, nil
+		case "unsat", "unknown", "timeout":
+			ms.close()
+			return nil, fmt.Errorf("no model (%s)", line)
+		}
+	}
+	ms.close()
+	return nil, fmt.Errorf("no answer")
+}
+
+func (ms *modelSession) close() {
+	ms.in.Close()
+	ms.cmd.Process.Kill()
+	ms.cmd.Wait()
+}
+
+// value evaluates a term in the model and returns the printed value.
+func (ms *modelSession) value(term string) (string, error) {
+	if _, err := io.WriteString(ms.in, "(get-value ("+term+"))\n"); err != nil {
+		return "", err
+	}
+	// read one balanced s-expression
+	var sb strings.Builder
+	depth := 0
+	started := false
+	for {
+		r, _, err := ms.out.ReadRune()
+		if err != nil {
+			return "", err
+		}
+		if !started {
+			if r == '(' {
+				started = true
+				depth = 1
+				sb.WriteRune(r)
+			}
+			continue
+		}
+		sb.WriteRune(r)
+		if r == '(' {
+			depth++
+		} else if r == ')' {
+			depth--
+			if depth == 0 {
+				break
+			}
+		}
+	}
+	s := sb.String()
+	if strings.HasPrefix(s, "(error") {
+		return "", fmt.Errorf("%s", s)
+	}
+	// ((term value)) -> value : strip the echoed term
+	s = strings.TrimSpace(s)
+	s = strings.TrimPrefix(s, "((")
+	s = strings.TrimSuffix(s, "))")
+	// the echoed term may be normalised by z3; find the value as the last top-level s-expr
+	return lastSexpr(s), nil
+}
+
+func lastSexpr(s string) string {
+	s = strings.TrimSpace(s)
+	if s == "" {
+		return s
+	}
+	if s[len(s)-1] != ')' {
+		i := strings.LastIndexAny(s, " \n\t")
+		return s[i+1:]
+	}
+	depth := 0
+	for i := len(s) - 1; i >= 0; i-- {
+		switch s[i] {
+		case ')':
+			depth++
+		case '(':
+			depth--
+			if depth == 0 {
+				return s[i:]
+			}
+		}
+	}
+	return s
+}
+
+func (ms *modelSession) intValue(term string) (int64, bool) {
+	v, err := ms.value(term)
+	if err != nil {
+		return 0, false
+	}
+	v = strings.TrimSpace(v)
+	neg := false
+	if strings.HasPrefix(v, "(-") {
+		neg = true
+		v = strings.TrimSpace(strings.TrimSuffix(strings.TrimPrefix(v, "(-"), ")"))
+	}
+	n, err := strconv.ParseInt(v, 10, 64)
+	if err != nil {
+		// may exceed int64 (e.g. 2^63): clamp
+		if len(v) > 0 && v[0] >= '0' && v[0] <= '9' {
+			if neg {
+				return -9223372036854775808, true
+			}
+			return 9223372036854775807, true
+		}
+		return 0, false
+	}
+	if neg {
+		n = -n
+	}
+	return n, true
+}
+
+func (ms *modelSession) boolValue(term string) (bool, bool) {
+	v, err := ms.value(term)
+	if err != nil {
+		return false, false
+	}
+	v = strings.TrimSpace(v)
+	return v == "true", v == "true" || v == "false"
+}
+
+// concretiser turns model values into Go source expressions.
+type concretiser struct {
+	u       *Unit
+	ms      *modelSession
+	imports map[string]string // path -> alias
+	pkg     *types.Package    // package of the test (in-package)
+	depth   int
+	err     string
+	seenObj map[string]int
+}
+
+func (c *concretiser) qual(p *types.Package) string {
+	if p == c.pkg {
+		return ""
+	}
+	if a, ok := c.imports[p.Path()]; ok {
+		return a
+	}
+	a := fmt.Sprintf("p%d", len(c.imports))
+	c.imports[p.Path()] = a
+	return a
+}
+
+func (c *concretiser) typeStr(t types.Type) string {
+	return types.TypeString(t, c.qual)
+}
+
+func (c *concretiser) heapSym(key string) string {
+	return quoteSym(fmt.Sprintf("H!%s!0", key))
+}
+
+// goValue builds a Go expression for a value of type t whose SMT term is term.
+func (c *concretiser) goValue(t types.Type, term string) string {
+	w := c.u.w
+	c.depth++
+	defer func() { c.depth-- }()
+	if c.depth > 8 {
+		return c.zeroExpr(t)
+	}
+	switch ut := t.Underlying().(type) {
+	case *types.Basic:
+		switch {
+		case ut.Info()&types.IsBoolean != 0:
+			b, _ := c.ms.boolValue(term)
+			return fmt.Sprintf("%s(%v)", c.typeStr(t), b)
+		case ut.Info()&types.IsInteger != 0:
+			n, _ := c.ms.intValue(term)
+			if n == -9223372036854775808 {
+				return fmt.Sprintf("%s(-9223372036854775807 - 1)", c.typeStr(t))
+			}
+			return fmt.Sprintf("%s(%d)", c.typeStr(t), n)
+		case ut.Info()&types.IsString != 0:
+			return fmt.Sprintf("%s(%s)", c.typeStr(t), c.strLiteral(term))
+		case ut.Info()&types.IsFloat != 0:
+			return fmt.Sprintf("%s(0)", c.typeStr(t))
+		}
+	case *types.Pointer:
+		isNil, ok := c.ms.boolValue("(= " + term + " nilloc)")
+		if !ok || isNil {
+			return "nil"
+		}
+		if st, isStruct := ut.Elem().Underlying().(*types.Struct); isStruct {
+			objv, _ := c.ms.value("(obj " + term + ")")
+			key := objv + "/" + c.typeStr(ut.Elem())
+			if c.seenObj[key] > 0 {
+				return "nil /* cyclic/shared object not reconstructed */"
+			}
+			c.seenObj[key]++
+			defer func() { c.seenObj[key]-- }()
+			var fs []string
+			for i := 0; i < st.NumFields(); i++ {
+				f := st.Field(i)
+				if !f.Exported() && (f.Pkg() != c.pkg) {
+					continue
+				}
+				if isComposite(f.Type()) {
+					continue
+				}
+				hk := w.fieldHeapKey(ut.Elem(), i)
+				if w.addrTaken[hk] {
+					continue
+				}
+				if _, known := w.heapSorts[hk]; !known {
+					continue // never accessed by the verified code: irrelevant
+				}
+				fv := c.goValue(f.Type(), fmt.Sprintf("(select %s %s)", c.heapSym(hk), term))
+				if fv == c.zeroExpr(f.Type()) {
+					continue
+				}
+				fs = append(fs, fmt.Sprintf("%s: %s", f.Name(), fv))
+			}
+			return fmt.Sprintf("&%s{%s}", c.typeStr(ut.Elem()), strings.Join(fs, ", "))
+		}
+		return "nil"
+	case *types.Slice:
+		if isByte(ut.Elem()) {
+			isNil, _ := c.ms.boolValue("(bnil " + term + ")")
+			if isNil {
+				return "nil"
+			}
+			return fmt.Sprintf("%s(%s)", c.typeStr(t), c.strLiteral("(bstr "+term+")"))
+		}
+		n, ok := c.ms.intValue("(slen " + term + ")")
+		if !ok || n <= 0 {
+			isNil, _ := c.ms.boolValue("(= (sptr " + term + ") nilloc)")
+			if isNil {
+				return "nil"
+			}
+			return fmt.Sprintf("%s{}", c.typeStr(t))
+		}
+		if n > 6 {
+			n = 6
+			c.err = "slice longer than 6 elements truncated"
+		}
+		if isComposite(ut.Elem()) {
+			c.err = "slice of composite elements not reconstructed"
+			return fmt.Sprintf("make(%s, %d)", c.typeStr(t), n)
+		}
+		hk := w.typeHeapKey(ut.Elem())
+		var es []string
+		for i := int64(0); i < n; i++ {
+			es = append(es, c.goValue(ut.Elem(), fmt.Sprintf("(select %s (elem (sptr %s) %d))", c.heapSym(hk), term, i)))
+		}
+		return fmt.Sprintf("%s{%s}", c.typeStr(t), strings.Join(es, ", "))
+	case *types.Interface:
+		tag, ok := c.ms.intValue("(itag " + term + ")")
+		if !ok || tag <= 0 || int(tag) >= len(w.tagType) {
+			return "nil"
+		}
+		ct := w.tagType[tag]
+		if w.sortOf(ct) == SLoc {
+			return c.goValue(ct, "(ival "+term+")")
+		}
+		return "nil"
+	case *types.Struct:
+		var fs []string
+		for i := 0; i < ut.NumFields(); i++ {
+			f := ut.Field(i)
+			if !f.Exported() && f.Pkg() != c.pkg {
+				continue
+			}
+			fv := c.goValue(f.Type(), fmt.Sprintf("(%s %s)", w.structAcc(t, i), term))
+			fs = append(fs, fmt.Sprintf("%s: %s", f.Name(), fv))
+		}
+		return fmt.Sprintf("%s{%s}", c.typeStr(t), strings.Join(fs, ", "))
+	case *types.Map:
+		return "nil"
+	}
+	c.err = "unsupported parameter type " + t.String()
+	return c.zeroExpr(t)
+}
+
+func (c *concretiser) zeroExpr(t types.Type) string {
+	switch ut := t.Underlying().(type) {
+	case *types.Basic:
+		switch {
+		case ut.Info()&types.IsBoolean != 0:
+			return fmt.Sprintf("%s(false)", c.typeStr(t))
+		case ut.Info()&types.IsString != 0:
+			return fmt.Sprintf("%s(\"\")", c.typeStr(t))
+		default:
+			return fmt.Sprintf("%s(0)", c.typeStr(t))
+		}
+	case *types.Struct:
+		return c.typeStr(t) + "{}"
+	}
+	return "nil"
+}
+
+func (c *concretiser) strLiteral(term string) string {
+	n, ok := c.ms.intValue("(s.len " + term + ")")
+	if !ok || n <= 0 {
+		return `""`
+	}
+	if n > 48 {
+		n = 48
+		c.err = "string longer than 48 bytes truncated"
+	}
+	var sb strings.Builder
+	sb.WriteByte('"')
+	for i := int64(0); i < n; i++ {
+		b, _ := c.ms.intValue(fmt.Sprintf("(s.at %s %d)", term, i))
+		if b < 0 || b > 255 {
+			b = 'x'
+		}
+		fmt.Fprintf(&sb, "\\x%02x", b)
+	}
+	sb.WriteByte('"')
+	return sb.String()
+}
+
+// tryReplay concretises the solver's counterexample and runs it against the real code.
 func tryReplay(r *Report, o *Obligation) *replayResult {
-	return &replayResult{Outcome: "UNSUPPORTED", Reason: "counter-example concretisation not implemented for this function shape"}
+	if o.Status != "violated" {
+		return &replayResult{Outcome: "NO-MODEL", Reason: "the solver gave no model (" + o.Status + ")"}
+	}
+	u := o.unit
+	fn := u.root
+	if o.In != u.rootKey && !safetyKinds[o.Kind] {
+		return &replayResult{Outcome: "UNSUPPORTED", Reason: "obligation inside an inlined callee"}
+	}
+	if !panicKinds[o.Kind] {
+		return &replayResult{Outcome: "UNSUPPORTED", Reason: "replay is implemented for panic-type obligations only (the violated clause is not executable here)"}
+	}
+	for _, p := range fn.Params {
+		switch p.Type().Underlying().(type) {
+		case *types.Signature, *types.Chan:
+			return &replayResult{Outcome: "UNSUPPORTED", Reason: "function-typed or channel parameter"}
+		}
+	}
+	ms, err := startModelSession(o.smtFile(30000))
+	if err != nil {
+		return &replayResult{Outcome: "NO-MODEL", Reason: err.Error()}
+	}
+	defer ms.close()
+	pkg := fn.Pkg.Pkg
+	c := &concretiser{u: u, ms: ms, imports: map[string]string{}, pkg: pkg, seenObj: map[string]int{}}
+	var args []string
+	var decls []string
+	for i, p := range fn.Params {
+		term := quoteSym("p:" + p.Name())
+		v := c.goValue(p.Type(), term)
+		decls = append(decls, fmt.Sprintf("\targ%d := %s", i, v))
+		args = append(args, fmt.Sprintf("arg%d", i))
+	}
+	call := ""
+	if fn.Signature.Recv() != nil {
+		call = fmt.Sprintf("%s.%s(%s)", args[0], fn.Name(), strings.Join(args[1:], ", "))
+	} else {
+		call = fmt.Sprintf("%s(%s)", fn.Name(), strings.Join(args, ", "))
+	}
+	var imps []string
+	for path, alias := range c.imports {
+		imps = append(imps, fmt.Sprintf("\t%s %q", alias, path))
+	}
+	sort.Strings(imps)
+	src := fmt.Sprintf(`package %s
+
+import (
+	"fmt"
+	"testing"
+%s
+)
+
+// generated by govc from the solver's counter-example for obligation:
+//   %s
+func TestVerifReplay(t *testing.T) {
+	defer func() {
+		if r := recover(); r != nil {
+			fmt.Println("VERIF-REPLAY: PANIC:", r)
+		}
+	}()
+%s
+	%s
+	fmt.Println("VERIF-REPLAY: RETURNED")
+}
+`, pkg.Name(), strings.Join(imps, "\n"), o.Name, strings.Join(decls, "\n"), call)
+	// unused variable protection: results are discarded by calling as a statement; multi-value calls are fine as statements
+	res := &replayResult{Inputs: strings.Join(decls, "\n"), Test: src}
+	if c.err != "" {
+		res.Reason = c.err
+	}
+	out, cmdline, err := runReplayTest(r.Repo, pkg.Path(), fn, src)
+	res.Output = trimOutput(out)
+	res.Cmd = cmdline
+	switch {
+	case strings.Contains(out, "VERIF-REPLAY: PANIC:"):
+		res.Outcome = "REPRODUCED"
+	case strings.Contains(out, "VERIF-REPLAY: RETURNED"):
+		res.Outcome = "NOT-REPRODUCED"
+	default:
+		res.Outcome = "UNSUPPORTED"
+		if err != nil {
+			res.Reason = "replay test did not run: " + err.Error()
+		}
+	}
+	return res
+}
+
+var panicKinds = map[string]bool{"nil-deref": true, "index": true, "slice-bounds": true, "type-assert": true, "div-zero": true,
+	"nil-map-write": true, "neg-make": true, "explicit-panic": true}
+
+// runReplayTest injects the generated test through -overlay and runs it in a scratch harness module.
+func runReplayTest(repo, pkgPath string, fn *ssa.Function, src string) (string, string, error) {
+	scratch, err := os.MkdirTemp(os.Getenv("VERIF_SCRATCH"), "govcreplay")
+	if err != nil {
+		return "", "", err
+	}
+	defer os.RemoveAll(scratch)
+	var mod *struct {
+		Dir  string
+		Path string
+		Pkgs []string
+	}
+	for i := range repoModules {
+		if strings.HasPrefix(pkgPath, repoModules[i].Path) {
+			m := repoModules[i]
+			mod = &struct {
+				Dir  string
+				Path string
+				Pkgs []string
+			}{m.Dir, m.Path, m.Pkgs}
+		}
+	}
+	if mod == nil {
+		return "", "", fmt.Errorf("no module for %s", pkgPath)
+	}
+	hdir, err := makeHarness(scratch, repo, mod.Dir, mod.Path)
+	if err != nil {
+		return "", "", err
+	}
+	pkgDir := filepath.Join(repo, mod.Dir, strings.TrimPrefix(strings.TrimPrefix(pkgPath, mod.Path), "/"))
+	testFile := filepath.Join(scratch, "zz_verif_replay_test.go")
+	if err := os.WriteFile(testFile, []byte(src), 0o666); err != nil {
+		return "", "", err
+	}
+	ov := map[string]map[string]string{"Replace": {filepath.Join(pkgDir, "zz_verif_replay_test.go"): testFile}}
+	ovb, _ := json.Marshal(ov)
+	ovFile := filepath.Join(scratch, "overlay.json")
+	os.WriteFile(ovFile, ovb, 0o666)
+	args := []string{"test", "-overlay", ovFile, "-vet=off", "-count=1", "-timeout", "60s", "-run", "^TestVerifReplay$", "-v", pkgPath}
+	cmd := exec.Command("go", args...)
+	cmd.Dir = hdir
+	cmd.Env = goEnv()
+	out, err := cmd.CombinedOutput()
+	return string(out), "cd <harness module replacing " + mod.Path + "> && go " + strings.Join(args, " "), err
 }
